@@ -316,6 +316,8 @@ func depRules(c *Ctx) {
 	ruleAppendAlias(c, "base/dep", "D7-append-alias")
 	ruleCompileSorts(c)
 	ruleConstDepsPairing(c, "D11-constdeps-pairing")
+	ruleSelfDependency(c, "D12-self-dependency")
+	ruleQueuePartition(c, "D13-queue-partition")
 	c.Floor("D1-map-range", 8)
 	c.Floor("D2-order-taint", 6)
 	c.Floor("D3-stride", 1)
@@ -332,6 +334,9 @@ func init() {
 		{Name: "imports-after-decls", File: "base/dep/sorter.go", Old: "\tdecls := s.popPackages()\n\tif len(decls) == 0 {\n\t\tdecls = s.popImports()\n\t}\n\tif len(decls) == 0 {\n\t\tdecls = s.popDecls()\n\t}", New: "\tdecls := s.popPackages()\n\tif len(decls) == 0 {\n\t\tdecls = s.popDecls()\n\t}\n\tif len(decls) == 0 {\n\t\tdecls = s.popImports()\n\t}"},
 		{Name: "min-select-first-found", File: "base/dep/graph.go", Old: "if ret == nil || decl.Pos < pos {", New: "if ret == nil || pos < 0 {"},
 		{Name: "repeated-const-loses-dependencies", File: "base/dep/scope.go", Old: "\t\t\t\tvalue = defaults.Values[i]\n\t\t\t\tdeps = append(dup(deps), defaults.ValueDeps[i]...)\n\t\t\t}", New: "\t\t\t\tvalue = defaults.Values[i]\n\t\t\t}\n\t\t\tif i < len(node.Values) {\n\t\t\t\tdeps = append(dup(deps), defaults.ValueDeps[i]...)\n\t\t\t}"},
+		{Name: "variable-self-reference-dropped", File: "base/dep/decl.go", Old: "\tdecl := NewDecl(Var, ident.Name, node, ident.Pos(), deps)\n", New: "\tdecl := NewDecl(Var, ident.Name, node, ident.Pos(), remove_item_inplace(ident.Name, dup(deps)))\n"},
+		{Name: "import-joins-declaration-run", File: "base/dep/sorter.go", Old: "if node != nil && node.Tok != token.IMPORT && node.Tok != token.PACKAGE {", New: "if node != nil && node.Tok != token.PACKAGE {"},
+		{Name: "method-self-dependency-by-bare-name", File: "base/dep/decl.go", Old: "\tdeps = sort_unique_inplace(deps)\n\tdeps = remove_item_inplace(name, deps)\n\n\treturn NewDecl(kind, name, node, node.Name.Pos(), deps)", New: "\tdeps = sort_unique_inplace(deps)\n\tdeps = remove_item_inplace(node.Name.Name, deps)\n\n\treturn NewDecl(kind, name, node, node.Name.Pos(), deps)"},
 		{Name: "func-type-params-leak", File: "base/dep/scope.go", Old: "case *ast.BlockStmt, *ast.FuncType, *ast.InterfaceType, *ast.StructType:", New: "case *ast.BlockStmt, *ast.InterfaceType, *ast.StructType:"},
 	}
 	register(&PropDef{
@@ -562,6 +567,7 @@ func init() {
 			ruleSpinLock(c, "X2-spinlock")
 			ruleGoidGate(c, "X3-goid-gate")
 			ruleNoRuntimeWritesToCaptured(c, "H2-no-runtime-write-to-captured")
+			ruleNoSharedRuntimeStorage(c, "H1-no-shared-storage")
 			ruleGoAttachesToOwnFrame(c, "X3g-go-own-frame")
 			ruleDetachedOperands(c, "E3-detached-operands", "fast.Comp.Go")
 			ruleUniformity(c, "fast", []string{"channel.go", "select.go"}, "U-uniform")
@@ -570,6 +576,7 @@ func init() {
 			c.Floor("U-uniform", 55)
 		}},
 		Mutants: []Mutant{
+			{Name: "select-cases-allocated-once", File: "fast/select.go", Old: "\tc.append(func(env *Env) (Stmt, *Env) {\n\t\tcases := make([]xr.SelectCase, len(entries))\n", New: "\tcases := make([]xr.SelectCase, n)\n\tc.append(func(env *Env) (Stmt, *Env) {\n"},
 			{Name: "go-args-evaluated-in-goroutine", File: "fast/statement.go", Old: "\t\t\tfunv.Call(argv)\n\t\t}()", New: "\t\t\tfunv.Call(append(argv[:0:0], exprfun(env2)))\n\t\t}()", Canary: true},
 			{Name: "go-argument-aliases-variable", File: "fast/statement.go", Old: "\t\t\tv := argfun(env2)\n\t\t\tif v.CanSet() {\n\t\t\t\tv = v.Convert(v.Type()) // make a copy\n\t\t\t}\n\t\t\targv[i] = v\n", New: "\t\t\targv[i] = argfun(env2)\n"},
 			{Name: "gls-delete-unlocked", File: "fast/compile.go", Old: "\tg.lock.Lock()\n\tdelete(g.gls, goid)\n\tg.lock.Unlock()\n", New: "\tdelete(g.gls, goid)\n", Canary: true},
@@ -639,14 +646,20 @@ func init() {
 		Title: "A failed evaluation leaves earlier definitions intact",
 		Explanation: "Decided: T1 transactional publication: in every declaration compiler (Decl*, methodDecl, Import) that writes the compiler's persistent registry (NewBind / NewFuncBind / methodAdd with a real name, stores into Binds or Types), either no step that can still fail follows the write (failure reachability computed over the statically resolved call graph: a function can fail if it reaches panic), or a rollback registered with defer before the write restores the previous definition while a flag is still armed and the flag is cleared on the normal path; " +
 			"T2 compile precedes run: ParseEvalPrint / Eval compile the whole input before RunExpr. " +
-			"For methods the rollback re-publishes the saved method type through the same registry call and stores the saved function value back (F6, fixed). " +
+			"T3 methodAdd and methodFind reduce a pointer receiver to its element type under the same condition; T4 a grouped import validates every spec before one call binds them all; O the slot counters BindNum / IntBindNum are written by the allocator only (a rollback never gives a slot back). For methods the rollback re-publishes the saved method type through the same registry call and stores the saved function value back (F6, fixed). " +
 			"Not decided: the redefinition sentence (old variables keep their type and readability), which depends on named-type identity in xreflect.",
 		Assumptions: []string{"calls through interfaces and function values are not followed by the failure-reachability analysis"},
 		Rules: []func(*Ctx){func(c *Ctx) {
 			ruleTransactionalDecls(c, "T1-transactional-decl")
 			ruleCompileBeforeRun(c, "T2-compile-before-run")
+			ruleReceiverNormalisation(c, "T3-receiver-normalisation")
+			ruleImportAllOrNothing(c, "T4-import-all-or-nothing")
+			ruleOwnership(c, "O-slot-counters", "fast", "CompBinds", "BindNum", []string{"fast.CompBinds.NewBind"}, "slots are only ever handed out by the allocator: a counter that goes back would give the slot of a live variable to the next declaration")
+			ruleOwnership(c, "O-slot-counters", "fast", "CompBinds", "IntBindNum", []string{"fast.CompBinds.NewBind"}, "slots are only ever handed out by the allocator: a counter that goes back would give the slot of a live variable to the next declaration")
 		}},
 		Mutants: []Mutant{
+			{Name: "rollback-looks-for-pointer-receiver-elsewhere", File: "fast/function.go", Old: "\ttrecv = t.In(0)\n\tif trecv.Kind() == r.Ptr && !trecv.Named() {", New: "\ttrecv = t.In(0)\n\tif trecv.Kind() == r.Ptr && trecv.Named() {"},
+			{Name: "grouped-import-binds-spec-by-spec", File: "fast/import.go", Old: "\t\t\tpaths[path] = name\n", New: "\t\t\tpaths[path] = name\n\t\t\tif _, err := c.ImportPackagesOrError(map[string]PackageName{path: name}); err != nil {\n\t\t\t\tc.Errorf(\"error importing package %q: %v\", path, err)\n\t\t\t}\n"},
 			{Name: "declvar-rollback-removed", File: "fast/declaration.go", Old: "\t\t} else if oldbind != nil {\n\t\t\tc.Binds[name] = oldbind\n\t\t} else {\n\t\t\tdelete(c.Binds, name)\n\t\t}\n\t}()\n\tbind := c.NewBind(name, VarBind, t)", New: "\t\t}\n\t\t_ = oldbind\n\t}()\n\tbind := c.NewBind(name, VarBind, t)"},
 			{Name: "declfunc-rollback-removed", File: "fast/function.go", Old: "\t\t} else if oldbind != nil {\n\t\t\tc.Binds[funcname] = oldbind\n\t\t} else {\n\t\t\tdelete(c.Binds, funcname)\n\t\t}", New: "\t\t}\n\t\t_ = oldbind", Canary: true},
 			{Name: "declconst-publishes-before-conversion", File: "fast/declaration.go", Old: "\tlit := Lit{Type: valueType, Value: value}\n\tif t == nil {\n\t\tt = lit.Type\n\t} else {\n\t\tvalue = lit.ConstTo(t)\n\t}\n\tbind := c.NewBind(name, ConstBind, t)\n", New: "\tlit := Lit{Type: valueType, Value: value}\n\tbind := c.NewBind(name, ConstBind, t)\n\tif t == nil {\n\t\tt = lit.Type\n\t} else {\n\t\tvalue = lit.ConstTo(t)\n\t}\n", Canary: true},
@@ -699,11 +712,15 @@ func init() {
 			ruleSliceConversionNotFolded(c, "S1-slice-not-folded")
 			ruleTwoSidedAdmission(c, "V3-two-sided-admission")
 			ruleNoNarrowing(c, "K2-no-narrowing")
+			ruleConstantExactness(c, "EX1-exactness")
+			ruleRealPartNeedsZeroImag(c, "K4-real-part-needs-zero-imag")
 			ruleUniformity(c, "fast", []string{"convert.go"}, "U-uniform")
 			ruleAccessorFiles(c, "fast", []string{"convert.go"}, "A2-accessor")
 			c.Floor("U-uniform", 12)
 		}},
 		Mutants: []Mutant{
+			{Name: "unsigned-target-read-as-signed-first", File: "base/untyped/lit.go", Old: "\t\tcase r.Uint:\n\t\t\tn, exact = constant.Uint64Val(src)\n", New: "\t\tcase r.Uint:\n\t\t\tn, exact = constant.Int64Val(src)\n\t\t\tif !exact {\n\t\t\t\tn, exact = constant.Uint64Val(src)\n\t\t\t}\n"},
+			{Name: "complex-to-real-takes-real-part", File: "base/reflect/reflect.go", Old: "\t\t} else if IsCategory(k, r.Complex128) {\n\t\t\tif IsCategory(k, r.Int, r.Uint, r.Float64) {", New: "\t\t} else if IsCategory(k, r.Complex128) {\n\t\t\tif IsCategory(kto, r.Int, r.Uint, r.Float64) {"},
 			{Name: "gate-falls-through", File: "fast/convert.go", Old: "\t} else {\n\t\tc.Errorf(\"cannot convert %v to %v: %v\", e.Type, t, nodeOpt)\n\t\treturn nil\n\t}", New: "\t} else {\n\t\tc.Warnf(\"cannot convert %v to %v: %v\", e.Type, t, nodeOpt)\n\t}", Canary: true},
 			{Name: "uint16-result-read-as-int", File: "fast/convert.go", Old: "return uint16(val.Uint())", New: "return uint16(val.Int())", Canary: true},
 			{Name: "converter-check-dropped", File: "fast/convert.go", Old: "\tif !tin.ConvertibleTo(tout) {\n\t\tc.Errorf(\"cannot convert from <%v> to <%v>\", tin, tout)\n\t}\n", New: ""},
@@ -727,8 +744,13 @@ func init() {
 			ruleInexactUndefined(c, "K1-inexact-undefined")
 			ruleNoNarrowing(c, "K2-no-narrowing")
 			ruleFreshBigValues(c, "F1-fresh-big")
+			ruleUnaryKeepsKind(c, "K5-unary-keeps-kind")
+			ruleConstRepetitionPairing(c, "K6-const-repetition-pairing")
 		}},
 		Mutants: []Mutant{
+			{Name: "unary-result-kind-not-from-operand", File: "fast/unary.go", Old: "return c.exprUntypedLit(xlit.Kind, ret)", New: "return c.exprUntypedLit(UntypedLit{Val: ret}.Kind, ret)"},
+			{Name: "const-repetition-keeps-earlier-type", File: "fast/declaration.go", Old: "\t\t\t\tdefaultType = valueSpec.Type\n", New: "\t\t\t\tif valueSpec.Type != nil {\n\t\t\t\t\tdefaultType = valueSpec.Type\n\t\t\t\t}\n"},
+			{Name: "exact-float-path-for-signed-targets-only", File: "base/untyped/lit.go", Old: "\t\tif cat == r.Int || cat == r.Uint {\n\t\t\t// an integer-valued float constant", New: "\t\tif cat == r.Int {\n\t\t\t// an integer-valued float constant"},
 			{Name: "compare-uses-fixed-operator", File: "fast/binary.go", Old: "flag := constant.Compare(x.Val, op, y.Val)", New: "flag := constant.Compare(x.Val, token.EQL, y.Val)", Canary: true},
 			{Name: "integer-division-only-checks-left", File: "fast/binary.go", Old: "if op2 == token.QUO && xint && yint {", New: "if op2 == token.QUO && xint {", Canary: true},
 			{Name: "binaryop-operands-swapped", File: "fast/binary.go", Old: "zobj := constant.BinaryOp(x.Val, op2, y.Val)", New: "zobj := constant.BinaryOp(y.Val, op2, x.Val)"},
